@@ -22,8 +22,9 @@ ALLOW = ('all', 'remote', 'local', 'sandbox', 'none')
 MECHANISMS = ('include', 'import', 'redefine', 'override', 'chained', 'locations_arg', 'uri_mapper_dict',
               'uri_mapper_call', 'hint_iter_errors', 'hint_validate', 'fallback_absent', 'fallback_illformed',
               'fallback_404', 'fallback_timeout', 'wildcard_load_namespace', 'xmldocument_parse',
-              'hint_to_dict', 'hint_fetch_schema', 'hint_meta_namespace')
-MAIN_KINDS = ('path', 'fileurl', 'remote', 'text_base', 'stream_url', 'stream_remote_url')
+              'hint_to_dict', 'hint_fetch_schema', 'hint_meta_namespace', 'hint_on_meta_element', 'hint_resource_outside',
+              'api_include_schema', 'api_import_schema', 'api_add_schema')
+MAIN_KINDS = ('path', 'fileurl', 'remote', 'text_base', 'stream_url', 'stream_remote_url', 'stream_url_dotdot')
 
 # (id, spelling template relative to the main document's directory, class of the target, marker id)
 # {W} = world root, {F} = inc.xsd / imp.xsd depending on the mechanism
@@ -178,16 +179,19 @@ class C12(Check):
         import xmlschema
         self.pkg_schemas = os.path.join(os.path.dirname(xmlschema.__file__), 'schemas')
         # vacuity control: every (mechanism, spelling) pair must fetch its target under allow='all'
-        pairs = [(m, s[0]) for m in MECHANISMS for s in SPELLINGS]
+        # (the spelling of the hint is irrelevant where the INSTANCE's own location decides: one spelling only)
+        pairs = [(m, s[0]) for m in MECHANISMS for s in SPELLINGS if m != 'hint_resource_outside' or s[0] == 'rel']
         res = parallel_map(self._vacuity, pairs, timeout=120)
         # hints for a namespace the meta-schema owns are never to be followed: "not fetched under allow='all'" is
         # the correct behaviour there, not vacuity
-        always = ('hint_meta_namespace',)
+        always = ('hint_meta_namespace', 'hint_on_meta_element')
         self.live = [p for p, r in zip(pairs, res) if r or p[0] in always]
         self.vacuous = [list(p) for p, r in zip(pairs, res) if not r and p[0] not in always]
         self.points = [(a, m, s) for a in ALLOW for (m, s) in self.live]
         rng = core.sub_rng(master_seed, 'c12-order')
         rng.shuffle(self.points)
+        # mechanisms with a single live spelling would mostly fall outside the quick tier's third: they go first
+        self.points.sort(key=lambda p: p[1] != 'hint_resource_outside')
 
     def _vacuity(self, pair):
         m, s = pair
@@ -203,7 +207,8 @@ class C12(Check):
     def gen_case(self, rng, index):
         a, m, s = self.points[index % len(self.points)]
         if self.tier == 'quick':
-            main = rng.choice(MAIN_KINDS)
+            # the sandbox variations (relative / missing / empty base_url, other tree) hang on a path main source
+            main = 'path' if a == 'sandbox' and rng.random() < 0.4 else rng.choice(MAIN_KINDS)
         else:
             main = MAIN_KINDS[(index // len(self.points)) % len(MAIN_KINDS)]
         version = '1.1' if m == 'override' else rng.choice(['1.0', '1.1'])
@@ -232,9 +237,19 @@ class C12(Check):
         peer.install()
         counters = {}
         violations = []
+
+        def meta_names():
+            return {n for c in (xmlschema.XMLSchema10, xmlschema.XMLSchema11)
+                    for n in list(c.meta_schema.maps.attributes) + list(c.meta_schema.maps.elements) if 'mk_' in n}
+        meta_before = meta_names()      # (the class-level meta-schemas outlive a case: only what THIS case adds counts)
         import_like = mech in ('import', 'locations_arg', 'uri_mapper_dict', 'uri_mapper_call', 'hint_iter_errors',
                                'hint_validate', 'hint_to_dict', 'hint_fetch_schema', 'wildcard_load_namespace',
-                               'xmldocument_parse') or mech.startswith('fallback')
+                               'xmldocument_parse', 'hint_on_meta_element', 'hint_resource_outside',
+                               'api_import_schema') or mech.startswith('fallback')
+        if mech == 'hint_resource_outside':
+            # the instance is a pre-built XMLResource that lives OUTSIDE the schema's sandbox; its relative hint
+            # resolves next to it
+            tclass, marker = 'outside', 'outside'
         fname = 'imp.xsd' if import_like else 'inc.xsd'
         if mech == 'hint_meta_namespace':
             fname = 'xmlns.xsd'
@@ -282,7 +297,7 @@ class C12(Check):
                 first = 'http://sim.test/r/slow.xsd'
             uri = first
             kw['locations'] = {NS_T: loc}
-        text = main_xsd(mech if not mech.startswith(('hint', 'wildcard', 'xmldocument')) else 'none', uri, case['version'])
+        text = main_xsd(mech if not mech.startswith(('hint', 'wildcard', 'xmldocument', 'api_')) else 'none', uri, case['version'])
         if mech == 'chained':
             chain = (f'<xs:schema xmlns:xs="http://www.w3.org/2001/XMLSchema" targetNamespace="{NS_MAIN}">\n'
                      f' <xs:include schemaLocation="{loc}"/>\n</xs:schema>\n')
@@ -311,6 +326,11 @@ class C12(Check):
             # what urlopen() returns for a remote URL: a file-like object that carries its origin in .url
             source = make_stream('buffered', text.encode(), url='http://sim.test/base/sand/main.xsd', seekable=False)
             peer.pages['http://sim.test/base/sand/main.xsd'] = text.encode()
+        elif main_kind == 'stream_url_dotdot':
+            # an open response whose origin is spelled THROUGH the sandbox but lies outside it
+            world.write('base/other/main.xsd', text)
+            source = make_stream('buffered', text.encode(), url='file://' + world.sand + '/../other/main.xsd')
+            kw['base_url'] = base_dir
         else:
             source = make_stream('buffered', text.encode(), url='file://' + main_path)
             kw['base_url'] = base_dir
@@ -360,6 +380,15 @@ class C12(Check):
             doc2_path = world.write('base/sand/doc2.xml',
                                     f'<t:fetched xmlns:t="{NS_T}" xmlns:xsi="http://www.w3.org/2001/XMLSchema-instance" '
                                     f'xsi:schemaLocation="{NS_T} {loc}">1</t:fetched>')
+        if mech == 'hint_on_meta_element':
+            # the hint sits on an element of the XSD namespace admitted by a lax wildcard: it is validated by the
+            # META-schema's element declaration, whose own maps are not the confined ones
+            doc_path = world.write('base/sand/doc.xml',
+                                   f'<m:root xmlns:m="{NS_MAIN}" xmlns:xsi="http://www.w3.org/2001/XMLSchema-instance" '
+                                   f'xmlns:xs="http://www.w3.org/2001/XMLSchema"><m:wrap>'
+                                   f'<xs:annotation xsi:schemaLocation="{NS_T} {loc}"/></m:wrap></m:root>')
+        if mech == 'hint_resource_outside':
+            doc_path = world.write('outside/doc.xml', self.hint_doc('imp.xsd'))
         if mech in ('wildcard_load_namespace', 'xmldocument_parse'):
             doc_path = world.write('base/sand/doc.xml', f'<m:root xmlns:m="{NS_MAIN}"><t:fetched xmlns:t="{NS_T}">1'
                                                         f'</t:fetched></m:root>')
@@ -371,7 +400,7 @@ class C12(Check):
                     if mech in ('hint_validate', 'hint_to_dict', 'hint_fetch_schema'):
                         vkw = {'allow': allow}
                         if allow == 'sandbox' and not nobase:
-                            vkw['base_url'] = base_dir
+                            vkw['base_url'] = '' if case.get('emptybase') else base_dir
                         if mech == 'hint_validate':
                             xmlschema.validate(doc_path, cls=cls, **vkw)
                         elif mech == 'hint_to_dict':
@@ -391,8 +420,21 @@ class C12(Check):
                             xdoc = xmlschema.XmlDocument(doc_path, schema=schema, validation='skip', **dkw)
                             xdoc.parse(loc if '://' in loc or loc.startswith('/') else os.path.join(world.sand, loc))
                             outcome['doc_allow_after_parse'] = xdoc.allow
-                        if mech == 'hint_meta_namespace':
+                        if mech in ('hint_meta_namespace', 'hint_on_meta_element'):
                             outcome['errors'] = [e.reason for e in schema.iter_errors(doc_path, use_location_hints=True)]
+                        if mech == 'hint_resource_outside':
+                            res = xmlschema.XMLResource(doc_path)       # the caller's own resource, own settings
+                            outcome['errors'] = [e.reason for e in schema.iter_errors(res, use_location_hints=True)]
+                        # the programmatic forms of include / import: the caller names the location next to the main
+                        # schema (a relative spelling is joined to its directory, as a caller working elsewhere would)
+                        api_loc = loc if '://' in loc or loc.startswith(('/', 'file:', 'FILE:', 'urn:', 'stub:')) \
+                            else os.path.join(world.sand, loc)
+                        if mech == 'api_include_schema':
+                            schema.include_schema(api_loc, build=True)
+                        elif mech == 'api_import_schema':
+                            schema.import_schema(NS_T, api_loc, build=True)
+                        elif mech == 'api_add_schema':
+                            schema.add_schema(api_loc, build=True)
                         if mech == 'hint_iter_errors':
                             outcome['errors'] = [e.reason for e in schema.iter_errors(doc_path, use_location_hints=True)]
                 except BaseException as exc:
@@ -445,6 +487,8 @@ class C12(Check):
                     ok = False
                 # fetch_schema() documents its allow argument as "applied to location hints only": the source
                 # document it is asked to inspect is opened whatever the mode
+            if is_doc and mech == 'hint_resource_outside':
+                ok = True      # opened by the caller's own XMLResource, under the caller's own settings
             if not ok:
                 rel = where.replace(os.path.realpath(root), '{W}') if kind == 'local' else where
                 violations.append({'signature': dict(sigbase, clause='forbidden-fetch', fetched_class=kind,
@@ -473,16 +517,16 @@ class C12(Check):
                 violations.append({'signature': dict(sigbase, clause='denied-content-influences-result',
                                                      target_class=tclass, spelling=sid),
                                    'detail': {'case': case, 'names': sorted(names), 'outcome': outcome}})
-        meta_leak = sorted(n for c in (xmlschema.XMLSchema10, xmlschema.XMLSchema11)
-                           for n in c.meta_schema.maps.attributes if 'mk_' in n)
+        meta_leak = sorted(meta_names() - meta_before)
         if meta_leak:
             violations.append({'signature': dict(sigbase, clause='meta-schema-maps-extended-by-instance-hint'),
                                'detail': {'case': case, 'names': meta_leak[:5]}})
         # ---- a main source handed over as an open response is classed by the origin it names ------------
-        stream_origin = {'stream_url': 'local', 'stream_remote_url': 'remote'}.get(main_kind)
+        stream_origin = {'stream_url': 'local', 'stream_remote_url': 'remote', 'stream_url_dotdot': 'local-outside'}.get(main_kind)
         if stream_origin and not mech.startswith(('hint_val', 'hint_to', 'hint_fetch')):
             origin_denied = allow == 'none' or (allow == 'local' and stream_origin == 'remote') or \
-                (allow == 'remote' and stream_origin == 'local') or (allow == 'sandbox' and stream_origin == 'remote')
+                (allow == 'remote' and stream_origin.startswith('local')) or \
+                (allow == 'sandbox' and stream_origin in ('remote', 'local-outside'))
             refused = outcome['exc'] == 'XMLResourceBlocked' or \
                 (outcome['exc'] == 'XMLSchemaValueError' and 'sandbox' in (outcome.get('msg') or ''))
             if origin_denied and not refused:
